@@ -490,13 +490,23 @@ theorem C18_state_grows_witness :
     (run [⟨2, 5⟩] [0, 1, 2, 3, 4, 5, 6, 7, 8, 9, 10, 11] [] []).map (fun p => p.2.length) = some 12 := by
   decide
 
-/-- **Finding (IPv6 specific rules)** — `"." in key` is how the code recognises a specific-address
-    rule.  For an IPv6 address the specific rule therefore does not stop the evaluation, and the
-    generic `ip` rule is evaluated on the *same* deque that just received the timestamp: an
-    exempt (`-1/s`) IPv6 address is refused on its very first message by a `1/h` ip rule. -/
-theorem C18_ipv6_specific_not_exempt_witness :
+/-- **C18 (a specific-address rule takes precedence)** — whenever the address has its own rule for
+    the command and that rule admits the message, `is_limited` answers "not limited" and neither the
+    `global` nor the `ip` rules are evaluated or charged — for every address, IPv4 or IPv6.  (The
+    pinned code recognised a specific rule by `"." in key`, so for an IPv6 address the generic rules
+    were still applied, on the deque the specific rule had just written to: an exempt `-1/s` IPv6
+    address was refused on its first message by a `1/h` ip rule.  Repaired by a `fix:` commit.) -/
+theorem C18_specific_precedence (cfg : Config) (s : State) (addr cmd : String) (now : Int)
+    (rs : List (String × List Rule)) (rules : List Rule) (dq : Deque)
+    (h1 : lookup addr cfg.specific = some rs) (h2 : lookup cmd rs = some rules)
+    (h3 : visit rules (getDq s (.ip addr) cmd) now = some (false, dq)) :
+    isLimited cfg s addr cmd now = some (false, setDq s (.ip addr) cmd dq) := by
+  simp [isLimited, h1, h2, h3]
+
+/-- an exempt IPv6 address under a strict generic ip rule -/
+example :
     (isLimited { specific := [("::1", [("EVENT", [⟨1, -1⟩])])], ipRules := [("EVENT", [⟨3600, 1⟩])] }
-      {} "::1" "EVENT" 0).map (·.1) = some true := by decide +kernel
+      {} "::1" "EVENT" 0).map (·.1) = some false := by decide +kernel
 
 /-- the same configuration with an IPv4 address: exempt, as documented -/
 theorem C18_ipv4_specific_exempt_witness :
